@@ -199,9 +199,13 @@ def _res_dispatch(engine, st, v, on_ok, on_err):
     return alts[0][1] if len(alts) == 1 and alts[0][0] is True else Fork(alts)
 
 
+def _method_name(callee):
+    return sym.strip_generics(callee).split("::")[-1].strip()
+
+
 def m_option_method(engine, st, fr, callee, args, ops):
     engine._cur_call = (st, fr)
-    meth = re.search(r"::(\w+)(::<.*>)?$", callee).group(1)
+    meth = _method_name(callee)
     v = args[0]
     if isinstance(v, Ref) and meth in ("is_some", "is_none", "as_ref", "as_mut", "copied", "cloned"):
         pass
@@ -273,7 +277,7 @@ def _cell(engine, st, clo):
 
 def m_result_method(engine, st, fr, callee, args, ops):
     engine._cur_call = (st, fr)
-    meth = re.search(r"::(\w+)(::<.*>)?$", callee).group(1)
+    meth = _method_name(callee)
     v = args[0]
     ok = lambda x: Adt("Result", "Ok", [x])
     err = lambda e: Adt("Result", "Err", [e])
@@ -302,6 +306,10 @@ def m_result_method(engine, st, fr, callee, args, ops):
         return _res_dispatch(engine, st, v, lambda x: _call1(engine, args[1], [x]), err)
     if meth == "or_else":
         return _res_dispatch(engine, st, v, ok, lambda e: _call1(engine, args[1], [e]))
+    if meth == "and":
+        return _res_dispatch(engine, st, v, lambda x: args[1], err)
+    if meth == "or":
+        return _res_dispatch(engine, st, v, ok, lambda e: args[1])
     if meth == "map_or":
         return _res_dispatch(engine, st, v, lambda x: _call1(engine, args[2], [x]), lambda e: args[1])
     if meth == "as_ref":
@@ -386,6 +394,13 @@ def m_seq_is_empty(engine, st, fr, callee, args, ops):
 
 
 def m_seq_first_last(engine, st, fr, callee, args, ops):
+    base = args[0]
+    x = sym._deref_arg(engine, st, base) if isinstance(base, Ref) else base
+    if isinstance(x, sym.Sym) and isinstance(base, Ref):
+        # an opaque vector: empty, or its first / last element (a derived opaque element)
+        n = engine.len_of(st, base)
+        k = 0 if re.search(r"::first(_mut)?$", callee) else -1
+        return Fork([(n == 0, none()), (n != 0, some(Ref(base.root, base.path + (("index_c", k),), base.mut)))])
     refs = elem_refs(engine, st, args[0])
     if not refs:
         return none()
@@ -594,6 +609,24 @@ def m_find_map(engine, st, fr, callee, args, ops):
         if not (isinstance(out, Adt) and out.variant == "None"):
             raise Unsupported("find_map with a symbolic Option")
     return none()
+
+
+def m_noop(engine, st, fr, callee, args, ops):
+    return UNIT
+
+
+def m_discriminant(engine, st, fr, callee, args, ops):
+    """`mem::discriminant(&x)`: the variant index of an enum value; for an opaque value an uninterpreted word derived from it"""
+    v = _deref(engine, st, args[0])
+    if isinstance(v, Adt) and v.variant is not None:
+        e = engine.reg.lookup(v.ty)
+        if e and v.variant in e["by_name"]:
+            return z3.BitVecVal(e["by_name"][v.variant], 64)
+    if isinstance(v, sym.Sym):
+        return z3.BitVec(v.name + "#discriminant", 64)
+    if z3.is_expr(v):
+        return z3.BitVecVal(0, 64)
+    raise Unsupported("discriminant of %r" % (v,))
 
 
 def m_vec_truncate(engine, st, fr, callee, args, ops):
@@ -967,7 +1000,7 @@ MODELS = [
     # Option / Result
     (r"^Option::<.*>::(unwrap_or|unwrap_or_default|unwrap_or_else|map|map_or|map_or_else|and_then|or|or_else|xor|zip|filter|ok_or|ok_or_else|copied|cloned|is_some_and)(::<.*>)?$",
      m_option_method),
-    (r"^(std::result::)?Result::<.*>::(is_ok|is_err|ok|err|unwrap_or|unwrap_or_else|unwrap_or_default|map|map_err|and_then|or_else|map_or|as_ref)(::<.*>)?$", m_result_method),
+    (r"^(std::result::)?Result::<.*>::(is_ok|is_err|ok|err|unwrap_or|unwrap_or_else|unwrap_or_default|map|map_err|and_then|or_else|and|or|map_or|as_ref)(::<.*>)?$", m_result_method),
     # mem
     (r"^(std|core)::mem::swap::<", m_mem_swap),
     (r"^(std|core)::mem::replace::<", m_mem_replace),
@@ -993,6 +1026,9 @@ MODELS = [
     (r"^core::slice::<impl \[.*\]>::binary_search$", m_seq_binary_search),
     (r"^Vec::<.*>::extend_from_slice$", m_vec_extend_from_slice),
     (r"^<Vec<.*> as Extend<.*>>::extend::<", m_vec_extend),
+    (r"^Vec::<.*>::(reserve|reserve_exact|shrink_to_fit|shrink_to)$", m_noop),
+    (r"^(std::mem::|core::mem::)?discriminant::<", m_discriminant),
+    (r"^<(std::mem::|core::mem::)?Discriminant<.*> as PartialEq>::(eq|ne)$", lambda e, s_, f, c, a, o: z3.simplify((_deref(e, s_, a[0]) == _deref(e, s_, a[1])) if c.endswith("eq") else (_deref(e, s_, a[0]) != _deref(e, s_, a[1])))),
     (r"^Vec::<.*>::truncate$", m_vec_truncate),
     (r"^Vec::<.*>::clear$", m_vec_clear),
     (r"^Vec::<.*>::(remove|swap_remove)$", m_vec_remove),
